@@ -356,7 +356,7 @@ func c05CLI(c *Ctx, tag, name string, data []byte) {
 
 // ---------- object construction (deterministic from c.R; no library key generation) ----------
 
-func randBits(r *Rng, bits int) *big.Int { // exactly `bits` bits, two top bits set, odd
+func c05_randBits(r *Rng, bits int) *big.Int { // exactly `bits` bits, two top bits set, odd
 	n := (bits + 7) / 8
 	b := r.Bytes(n)
 	x := new(big.Int).SetBytes(b)
@@ -385,12 +385,12 @@ type rsaParts struct {
 	E                        int
 }
 
-func genRSA(r *Rng, bits int) rsaParts {
-	p := randBits(r, bits/2)
-	q := randBits(r, bits-bits/2)
+func c05_genRSA(r *Rng, bits int) rsaParts {
+	p := c05_randBits(r, bits/2)
+	q := c05_randBits(r, bits-bits/2)
 	n := new(big.Int).Mul(p, q)
 	for n.BitLen() != bits { // products of two numbers with their two top bits set have full length
-		q = randBits(r, bits-bits/2)
+		q = c05_randBits(r, bits-bits/2)
 		n.Mul(p, q)
 	}
 	e := []int{3, 17, 65537}[r.Intn(3)]
@@ -402,7 +402,7 @@ func (k rsaParts) pkcs1Priv(extra int, r *Rng) []byte {
 	if extra > 0 {
 		s.Version = 1
 		for i := 0; i < extra; i++ {
-			s.AdditionalPrimes = append(s.AdditionalPrimes, asn1struct.PKCS1AdditionalRSAPrime{Prime: randBits(r, 64), Exp: randBits(r, 60), Coeff: randBits(r, 60)})
+			s.AdditionalPrimes = append(s.AdditionalPrimes, asn1struct.PKCS1AdditionalRSAPrime{Prime: c05_randBits(r, 64), Exp: c05_randBits(r, 60), Coeff: c05_randBits(r, 60)})
 		}
 	}
 	return must(asn1.Marshal(s))
@@ -440,19 +440,19 @@ var c05Curves = []ecCurve{
 	{"p384", elliptic.P384(), oid.Secp384r1}, {"p521", elliptic.P521(), oid.Secp521r1},
 }
 
-type ecKey struct {
+type c05_ecKey struct {
 	c   ecCurve
 	d   []byte
 	pub []byte // uncompressed point
 }
 
-func genEC(r *Rng, c ecCurve) ecKey {
+func c05_genEC(r *Rng, c ecCurve) c05_ecKey {
 	n := c.curve.Params().N
 	d := randBelow(r, n)
 	size := (n.BitLen() + 7) / 8
 	db := d.FillBytes(make([]byte, size))
 	x, y := c.curve.ScalarBaseMult(db)
-	return ecKey{c: c, d: db, pub: elliptic.Marshal(c.curve, x, y)}
+	return c05_ecKey{c: c, d: db, pub: elliptic.Marshal(c.curve, x, y)}
 }
 
 // explicit parameters of a prime curve as the repository's ECParameters struct
@@ -473,7 +473,7 @@ func explicitParams(c ecCurve, withSeedAndCofactor bool) asn1.RawValue {
 	return rawOf(ep)
 }
 
-func (k ecKey) sec1(params *asn1.RawValue, withPub bool) []byte {
+func (k c05_ecKey) sec1(params *asn1.RawValue, withPub bool) []byte {
 	type sec1Named struct {
 		Version    int
 		PrivateKey []byte
@@ -492,9 +492,9 @@ func (k ecKey) sec1(params *asn1.RawValue, withPub bool) []byte {
 
 type dsaParts struct{ P, Q, G, Y, X *big.Int }
 
-func genDSA(r *Rng, l, n int) dsaParts {
-	p := randBits(r, l)
-	q := randBits(r, n)
+func c05_genDSA(r *Rng, l, n int) dsaParts {
+	p := c05_randBits(r, l)
+	q := c05_randBits(r, n)
 	return dsaParts{P: p, Q: q, G: randBelow(r, p), Y: randBelow(r, p), X: randBelow(r, q)}
 }
 
@@ -543,17 +543,17 @@ func c05Objects(c *Ctx) []c05Obj {
 
 	// --- corpus: witnesses of past failures first ---
 	// 51-byte SEC1 P-256 key without public part: padded base64 wrapped at 64 with CRLF is itself one BER TLV
-	k0 := genEC(r, c05Curves[1])
+	k0 := c05_genEC(r, c05Curves[1])
 	named := rawOf(k0.c.oid)
 	add("sec1", "p256-nopub", k0.sec1(&named, false))
 	// 52-byte PKCS#1 public key (336-bit modulus): unpadded base64 on one line is itself one BER TLV
-	r336 := genRSA(r, 336)
+	r336 := c05_genRSA(r, 336)
 	r336.E = 65537
 	add("pkcs1pub", "rsa336", r336.pkcs1Pub())
 
 	// PKCS#1 private key with a toy modulus below 2^63: {version, n, ...} also fits the PKCS#1 public
 	// schema {N *big.Int; E int} (N := version, E := n), which parseDERData used to try first
-	add("pkcs1priv", "toy-rsa62", genRSA(r, 62).pkcs1Priv(0, r))
+	add("pkcs1priv", "toy-rsa62", c05_genRSA(r, 62).pkcs1Priv(0, r))
 
 	// --- RSA ---
 	sizes := []int{256, 257, 300, 336, 344, 352, 384, 512, 768, 1024, 2048}
@@ -566,7 +566,7 @@ func c05Objects(c *Ctx) []c05Obj {
 		sizes = append(sizes, 256+r.Intn(300), 4096)
 	}
 	for i, bits := range sizes {
-		k := genRSA(r, bits)
+		k := c05_genRSA(r, bits)
 		t := fmt.Sprintf("rsa%d", bits)
 		add("pkcs1pub", t, k.pkcs1Pub())
 		add("pkcs1priv", t, k.pkcs1Priv(0, r))
@@ -581,7 +581,7 @@ func c05Objects(c *Ctx) []c05Obj {
 	}
 	// --- EC ---
 	for i, cv := range c05Curves {
-		k := genEC(r, cv)
+		k := c05_genEC(r, cv)
 		named := rawOf(cv.oid)
 		expl := explicitParams(cv, i%2 == 0)
 		add("sec1", cv.name, k.sec1(&named, true))
@@ -613,7 +613,7 @@ func c05Objects(c *Ctx) []c05Obj {
 	add("pkcs8", "x448", pkcs8(oid.X448, asn1.RawValue{}, must(asn1.Marshal(r.Bytes(56)))))
 	// --- DSA ---
 	for _, ln := range [][2]int{{1024, 160}, {2048, 224}, {2048, 256}, {512, 160}} {
-		k := genDSA(r, ln[0], ln[1])
+		k := c05_genDSA(r, ln[0], ln[1])
 		t := fmt.Sprintf("dsa%d-%d", ln[0], ln[1])
 		params := rawOf(asn1struct.DSAParameters{P: k.P, Q: k.Q, G: k.G})
 		add("dsapriv", t, must(asn1.Marshal(asn1struct.DSAPrivateKey{Version: 0, P: k.P, Q: k.Q, G: k.G, Pub: k.Y, Priv: k.X})))
